@@ -354,6 +354,22 @@
   (window (churn))
   (print (parser/error p)))
 
+(defscenario parser-eof-error-string
+  # the "unexpected end of source" message is generated by the parser and owned only by it
+  (def p (parser/new))
+  (parser/consume p "(abc [1 2 ")
+  (parser/eof p)
+  (window (churn))
+  (print (parser/status p) " " (parser/error p)))
+
+(defscenario parser-clone-pending
+  (def p (parser/new))
+  (parser/consume p (string "(" (fresh-str "pcp") " @{:k \"v"))
+  (def q (parser/clone p))
+  (window (churn))
+  (parser/consume q "\"})")
+  (print (string/format "%j" (parser/produce q))))
+
 (defscenario peg-constants
   (def pg (peg/compile ~(* (constant ,(fresh-str "pgc")) (replace (capture "a") ,(fresh-tab "pgr")))))
   (window (churn))
